@@ -2,11 +2,16 @@ import sys, os
 sys.path.insert(0, os.path.join(VERIF, 'harness'))
 from typed_common import *
 HARNESSES = []
+import os as _os
+FX = ['-DFIXED_INPUT'] if _os.environ.get('VERIF_EXP_FIXED') else []
 Q = ['T_Seq', 'T_SeqX', 'T_Cho', 'T_SeqOf', 'T_Oct', 'T_Bits', 'T_IntX', 'T_SetOf', 'T_Set', 'T_Enum']
 for t, k in combos():
-    n = 5 if t in ('T_Seq', 'T_SeqX', 'T_Cho', 'T_SeqOf', 'T_SetOf', 'T_Set') else 6
+    n = 4 if t in ('T_Seq', 'T_SeqX', 'T_Cho', 'T_SeqOf', 'T_SetOf', 'T_Set') else 5
     tiers = ('quick', 'thorough') if t in Q else ('thorough',)
     HARNESSES.append(typed(H, 'dec_%s_%s' % (t, k), 'typed/dec_arbitrary.c', t, k, tiers=tiers, leak=True,
-                           defines=['-DNBYTES=%d' % n], functions=['%s decoder of %s; asn_check_constraints; der_encode; free' % (k, t)],
+                           defines=['-DNBYTES=%d' % n] + FX, functions=['%s decoder of %s; asn_check_constraints; der_encode; free' % (k, t)],
                            inputs='%d arbitrary octets in an exact-size heap object, symbolic size 0..%d' % (n, n), bounds='input <= %d octets' % n,
-                           exclude=(EXC[k].replace('|_oer', '').replace('|_uper', '').replace('_oer|', '').replace('_uper|', '') if False else EXC[k])))
+                           exclude=EXC[k]))
+    HARNESSES.append(typed(H, 'decpost_%s_%s' % (t, k), 'typed/dec_arbitrary.c', t, k, tiers=('thorough',), leak=True,
+                           defines=['-DNBYTES=%d' % n, '-DPOSTOPS'], functions=['%s decoder of %s, then asn_check_constraints, der_encode, free' % (k, t)],
+                           inputs='%d arbitrary octets in an exact-size heap object, symbolic size' % n, bounds='input <= %d octets' % n))
